@@ -466,7 +466,8 @@ struct cmi_dataset_histogram *cmi_dataset_histogram_create(const unsigned num_bi
 
     struct cmi_dataset_histogram *hp = cmi_malloc(sizeof(*hp));
     hp->num_bins = num_bins + 2u;
-    hp->binsize = range / (double)(num_bins);
+    /* A zero range (constant data, autoscaled) gets one unit-width bin for it all */
+    hp->binsize = (range > 0.0) ? range / (double)(num_bins) : 1.0;
     hp->low_lim = low_lim;
     hp->high_lim = high_lim;
     hp->binmax = 0.0;
@@ -520,7 +521,8 @@ void cmi_dataset_histogram_print(const struct cmi_dataset_histogram *hp,
 
     /* Max width of the histogram bars */
     const uint16_t max_stars = 50u;
-    const double scale = hp->binmax / (double)max_stars;
+    /* All bins may be empty, e.g., a time series where no sample has any duration */
+    const double scale = (hp->binmax > 0.0) ? hp->binmax / (double)max_stars : 1.0;
 
     /* Print the histogram */
     data_print_line(fp, symbol_thin, line_length);
